@@ -30,7 +30,7 @@ def classicOpcode (op : Nat) : Bool := 1 ≤ op && op ≤ 36 && op != 29 && op !
 def assignedWith (fl : Nat) : List Bytes :=
   (Gen.chiaOpTable.filterMap (fun (op, _, req) =>
     if (req == 0 || Interp.hasFlag fl req) && !classicOpcode op then some [UInt8.ofNat op] else none))
-  ++ Gen.chiaOp4Table.map (fun (op, _) => Ref.toBytesBE 4 op)
+  ++ Gen.chiaOp4Table.map (fun (op, _) => Py.Casts.toBytesUnsigned 4 op)
 
 /-- flags an extension adds inside its guard (`ChiaDialect::op`, default flags) -/
 def extensionFlags (ext : Nat) : Nat :=
